@@ -677,6 +677,20 @@ fn sweep_xarch(rng: &mut Rng, lines: &mut Vec<String>) {
             lines.push(xarch_line(rng, n % 5, &dirs, &g, &[], "one"));
         }
     }
+    // the same category, chunk and dat id in three repositories, different entries, all asked for
+    // on one handle (and each on a fresh one): which dat file an extraction reads is decided by
+    // the repository as well
+    for round in 0..3u64 {
+        let cat = CATS[(round as usize * 7 + 1) % 15];
+        let dirs = vec!["ffxiv".to_string(), "ex1".to_string(), "ex2".to_string()];
+        for mode in ["one", "fresh"] {
+            let mut g = XGen { free: vec![], records: vec![], paths: vec![] };
+            for prefix in [cat.to_string(), format!("{}/ex1", cat), format!("{}/ex2", cat)] {
+                g.family(rng, &prefix, round % 2, &[round * 3 % 8], Some(1 + round % 3), None, 3000);
+            }
+            lines.push(xarch_line(rng, round % 5, &dirs, &g, &[], mode));
+        }
+    }
 }
 
 fn gen_xarch(rng: &mut Rng, big: usize, lines: &mut Vec<String>) {
